@@ -128,7 +128,7 @@ pub fn run(ctx: &Ctx) -> Summary {
             }
         }
     }
-    let n = ctx.n(6000, 60000);
+    let n = ctx.n(6000, 240000);
     merge(&mut s, run_cases(ctx, n, |i| {
         let mut r = Rng::new(seed ^ 0x10 ^ (i << 16));
         let maxlen = *r.pick(&[3usize, 10, 40, 200, 1000, 5000]);
